@@ -533,6 +533,20 @@ impl ObjectReceiver {
             }
 
             if writer.is_completed() {
+                if !writer.check_content_length() {
+                    log::error!(
+                        "Content-Length {:?} does not match the number of bytes written {:?}",
+                        self.content_length,
+                        self.content_location
+                    );
+                    self.error(
+                        "Content-Length does not match the number of bytes written",
+                        now,
+                        false,
+                    );
+                    break;
+                }
+
                 let md5_valid = self
                     .content_md5
                     .as_ref()
